@@ -22,7 +22,11 @@
                              Move-like SOURCE (half 0 / first qubit) is the LAST instruction on its qubit, every Move-like
                              DESTINATION (half 1 / second qubit) the FIRST one on its qubit
      suffix_avoids_sources env sub idx
-                           = no measured qubit (cog.pauli_indices) is a source qubit                                  *)
+                           = no measured qubit (cog.pauli_indices) is a source qubit
+     input_ok env c        (Proofs/ResetFreeSep.v) c has no Reset and no SingleQubitQPDGate; a TwoQubitQPDGate in c has a
+                           basis of class 0 and two different qubits.  Section (4b): cut_wires_gen / expand / new_qubits =
+                           C03's model, partition_problem / dx_contract / no_uuid = C10's, collection / grouping_contract
+                           = C11's                                                                                    *)
 From CKT Require Import Common.Base Common.Circ Common.Herbrand
   Model.ResetPasses Model.Decompose Model.Measurement Model.ResetFree
   Proofs.ResetPassesP Proofs.DecomposeP Proofs.ResetFreeP.
@@ -185,10 +189,7 @@ Print Assumptions c19_repair_values.
    marker reads from the current position of the cut qubit, which is never used afterwards, and writes to the next
    position, which was never used before.  Stated on the UNSEPARATED circuit (TwoQubitQPDGate placeholders), which is
    what generate_cutting_experiments accepts directly; together with c19_no_reset this covers
-   cut_wires -> generate_cutting_experiments(circuit, observables).  For the separated workflow the step
-   "partitioning keeps every wire's instruction order" is not proved here (C10's model); the correspondence check
-   runs that workflow on every generated case.
-   c19_cut_wires_no_reuse_open (not proved): no_reuse of every subcircuit of partition_problem(cut_wires c). *)
+   cut_wires -> generate_cutting_experiments(circuit, observables).  The separated workflow is section (4b) below. *)
 From CKT Require Import Model.Observables Model.CutWires Proofs.ResetFreeCut.
 
 Theorem c19_cut_wires_no_reuse : forall (env : benv) nq c b bid lbl,
@@ -206,6 +207,139 @@ Example c19_ex_cut_wires :
 Proof. repeat split; vm_compute; reflexivity. Qed.
 
 Print Assumptions c19_cut_wires_no_reuse.
+
+(* ------------------------------------------------------------------------------------------------
+   (4b) the SEPARATED workflow:  cut_wires  ->  expand_observables  ->  partition_problem  ->  one subexperiment per
+   partition / commuting observable group / map choice.  Models: Model/CutWires.v (C03), Model/Observables.v [expand],
+   Model/Partition.v + Model/Separate.v (C10; oracles basis_of / relabel / dx with C10's contract [dx_contract]),
+   Model/Grouping.v [collection] (C11; the Qiskit grouping is an oracle with C11's monitored contract
+   [grouping_contract]), Model/ResetFree.v [finish].
+   Hypotheses on the input circuit c (nq qubits, wire-cut markers anywhere):
+     wf_circ nq c                          as in c19_cut_wires_no_reuse
+     input_ok env c                        no Reset, no SingleQubitQPDGate; a TwoQubitQPDGate already present (a gate cut) has a
+                                           basis without Reset and acts on two different qubits.  Weaker than
+                                           no_resets + no_placeholders (c19_input_ok_plain)
+     no_uuid c                             no one-qubit barrier carries the label text _split_barriers generates (C10)
+     basis_class env b = 1                 the basis cut_wires puts on a marker is Move-like (the `move` table: c19_facts_move_shape)
+     forall i in c, basis_of (iop i) = Some (b', _) -> basis_class env b' = 0
+                                           whatever gate partition_problem additionally cuts, its basis has no Reset
+   The labelling is arbitrary (explicit list or None = automatic); only success of partition_problem is assumed.
+   Proof idea (Proofs/ResetFreeSep.v): "source = last / destination = first instruction on its qubit" is a statement
+   about single wires; every step of partition_problem (placeholder insertion, numbering, TwoQubitQPDGate halves, the
+   oracle dx, restriction to a label, qubit re-indexing) keeps every wire's sequence (C10: problem_recompose), and a
+   source position of cut_wires is never the position of an original qubit, where alone expanded observables are
+   non-identity (C03: c03_expand_letters); restriction keeps letters (C17), a group's measured qubits are the
+   non-identity positions of some member (C11). *)
+From CKT Require Import Model.Separate Model.Partition Model.Grouping Proofs.SeparateP Proofs.PartitionP Proofs.ResetFreeSep.
+
+Theorem c19_input_ok_plain : forall env c, no_resets c = true -> no_placeholders c = true -> input_ok env c = true.
+Proof. exact input_ok_plain. Qed.
+
+(* c19_cut_wires_no_reuse with gate-cut placeholders allowed in the input *)
+Theorem c19_cut_wires_no_reuse_gen : forall (env : benv) nq c b bid lbl,
+  wf_circ nq c = true -> input_ok env c = true -> basis_class env b = 1 ->
+  no_reuse env (nq + CutWires.count_markers c) (cut_wires_gen (Qpd2 b bid lbl) nq c).
+Proof. exact cut_wires_no_reuse_gen. Qed.
+
+(* every subcircuit satisfies no_reuse, for any labelling that partition_problem accepts, any observables *)
+Theorem c19_separated_no_reuse : forall basis_of relabel dx, dx_contract dx ->
+  forall (env : benv) nq c b bid lbl,
+  wf_circ nq c = true -> input_ok env c = true -> no_uuid c ->
+  basis_class env b = 1 ->
+  (forall i b' l', In i c -> basis_of (iop i) = Some (b', l') -> basis_class env b' = 0) ->
+  forall labels obs ncl ncr subs bases so,
+  partition_problem basis_of relabel dx (nq + CutWires.count_markers c) ncl ncr
+    (cut_wires_gen (Qpd2 b bid lbl) nq c) labels obs = Ok (subs, bases, so) ->
+  forall l nql body, In (l, nql, body) subs -> no_reuse env nql body.
+Proof. exact separated_no_reuse. Qed.
+
+(* for the observables expanded from the original circuit (ps: one letter per original qubit), the measured qubits of
+   every commuting group of every partition avoid the source qubits *)
+Theorem c19_separated_suffix : forall basis_of relabel dx, dx_contract dx ->
+  forall (env : benv) nq c b bid lbl,
+  wf_circ nq c = true -> input_ok env c = true -> no_uuid c ->
+  basis_class env b = 1 ->
+  (forall i b' l', In i c -> basis_of (iop i) = Some (b', l') -> basis_class env b' = 0) ->
+  forall ps eps labels ncl ncr subs bases so,
+  (forall p, In p ps -> length (plets p) = nq) ->
+  expand nq (seq 0 nq) (new_qubits nq c) ps = Ok eps ->
+  partition_problem basis_of relabel dx (nq + CutWires.count_markers c) ncl ncr
+    (cut_wires_gen (Qpd2 b bid lbl) nq c) labels (Some eps) = Ok (subs, bases, Some so) ->
+  forall l nql body so_l, In (l, nql, body) subs -> In (l, so_l) so ->
+  forall o cogs lk cog, grouping_contract so_l o = true -> collection so_l o = Ok (cogs, lk) -> In cog cogs ->
+  suffix_avoids_sources env body (cg_indices cog).
+Proof. exact separated_suffix. Qed.
+
+(* hence: every partition, every group (the identity group with its dummy measurement included), every valid map
+   choice, every classical register layout of the subcircuit -> zero Resets *)
+Theorem c19_separated_no_reset : forall basis_of relabel dx, dx_contract dx ->
+  forall (env : benv) gh gsx nq c b bid lbl,
+  wf_circ nq c = true -> input_ok env c = true -> no_uuid c ->
+  basis_class env b = 1 ->
+  (forall i b' l', In i c -> basis_of (iop i) = Some (b', l') -> basis_class env b' = 0) ->
+  forall ps eps labels ncl ncr subs bases so,
+  (forall p, In p ps -> length (plets p) = nq) ->
+  expand nq (seq 0 nq) (new_qubits nq c) ps = Ok eps ->
+  partition_problem basis_of relabel dx (nq + CutWires.count_markers c) ncl ncr
+    (cut_wires_gen (Qpd2 b bid lbl) nq c) labels (Some eps) = Ok (subs, bases, Some so) ->
+  forall l nql body so_l, In (l, nql, body) subs -> In (l, so_l) so ->
+  forall o cogs lk cog, grouping_contract so_l o = true -> collection so_l o = Ok (cogs, lk) -> In cog cogs ->
+  forall qc ids ms out, mnq qc = nql -> mdata qc = body -> valid env body ids ms ->
+  finish gh gsx env qc ids ms (plets (cg_general cog)) (cg_indices cog) = Ok out ->
+  count_resets out = 0.
+Proof. exact separated_no_reset_full. Qed.
+
+(* non-vacuity: the F2 witness through the separated workflow.  h 0; cx 0 1; CutWire 0; rx 0; ry 1, observable Z on
+   original qubit 0, automatic labels: partition 0 = {source segment of qubit 0, qubit 1} gets the identity (dummy
+   measurement of its qubit 0 = the source), partition 1 = {destination segment} gets Z. *)
+Definition exSepC : circ := [G 0 [0]; G 10 [0; 1]; mkI CutWire [0] []; G 12 [0]; G 11 [1]].
+Definition exSepBo (o : op) : option (nat * qlabel) := None.
+Definition exSepRl (l : qlabel) : nat := match l with Some (b, _) => b | None => 9 end.
+Definition exSepA : circ := [G 0 [0]; G 10 [0; 1]; mkI (Qpd1 0 0 None (Some (7, Some 0))) [0] []; G 11 [1]].
+Definition exSepB : circ := [mkI (Qpd1 0 1 None (Some (7, Some 0))) [0] []; G 12 [0]].
+Example c19_ex_separated :
+  wf_circ 2 exSepC = true /\ input_ok exEnv exSepC = true /\ no_uuid exSepC /\
+  basis_class exEnv 0 = 1 /\
+  expand 2 (seq 0 2) (new_qubits 2 exSepC) [mkP 0 [3; 0]] = Ok [mkP 0 [0; 3; 0]] /\
+  partition_problem exSepBo exSepRl expand_qpd2 (2 + CutWires.count_markers exSepC) 0 0
+    (cut_wires_gen (Qpd2 0 None (Some (7, None))) 2 exSepC) None (Some [mkP 0 [0; 3; 0]]) =
+    Ok ([(0, 2, exSepA); (1, 1, exSepB)], [0], Some [(0, [mkP 0 [0; 0]]); (1, [mkP 0 [3]])]) /\
+  (let o := mkOracle [mkP 0 [0; 0]] [[mkP 0 [0; 0]]] in
+   grouping_contract [mkP 0 [0; 0]] o = true /\
+   collection [mkP 0 [0; 0]] o = Ok ([mkCog (mkP 0 [0; 0]) [mkP 0 [0; 0]] [] [0%N]], [(mkP 0 [0; 0], [(0, 0)])])) /\
+  (let o := mkOracle [mkP 0 [3]] [[mkP 0 [3]]] in
+   grouping_contract [mkP 0 [3]] o = true /\
+   collection [mkP 0 [3]] o = Ok ([mkCog (mkP 0 [3]) [mkP 0 [3]] [0] [1%N]], [(mkP 0 [3], [(0, 0)])])) /\
+  valid exEnv exSepA [[2]] [2%Z] /\ valid exEnv exSepB [[0]] [2%Z] /\
+  finish 0 1 exEnv (mkMC 2 0 [] exSepA) [[2]] [2%Z] [0; 0] [] =
+    Ok [G 0 [0]; G 10 [0; 1]; G 0 [0]; mkI Measure [0] [1]; G 11 [1]; mkI Measure [0] [0]] /\
+  finish 0 1 exEnv (mkMC 1 0 [] exSepB) [[0]] [2%Z] [3] [0] = Ok [G 0 [0]; G 12 [0]; mkI Measure [0] [0]].
+Proof.
+  split; [reflexivity|]. split; [reflexivity|]. split.
+  { intros i Hi. repeat (destruct Hi as [<-|Hi]; [reflexivity|]). destruct Hi. }
+  split; [reflexivity|]. split; [reflexivity|]. split; [vm_compute; reflexivity|].
+  split; [split; vm_compute; reflexivity|]. split; [split; vm_compute; reflexivity|].
+  split; [apply validb_sound; vm_compute; reflexivity|]. split; [apply validb_sound; vm_compute; reflexivity|].
+  split; vm_compute; reflexivity.
+Qed.
+
+(* input_ok accepts a gate-cut placeholder (basis 1 of this environment has no Reset) next to a marker, and refuses a
+   Reset, a hand-placed Move-like placeholder and a placeholder on one qubit twice *)
+Definition exEnv2 : benv := [move_basis; [([BGate 0], [BGate 2]); ([BMeas], [BGate 0])]].
+Example c19_ex_input_ok :
+  basis_class exEnv2 0 = 1 /\ basis_class exEnv2 1 = 0 /\
+  input_ok exEnv2 [G 0 [0]; mkI (Qpd2 1 None None) [0; 1] []; mkI CutWire [0] []; G 11 [1]] = true /\
+  no_reuseb exEnv2 3 (cut_wires_gen (Qpd2 0 None None) 2
+                        [G 0 [0]; mkI (Qpd2 1 None None) [0; 1] []; mkI CutWire [0] []; G 11 [1]]) = true /\
+  input_ok exEnv2 [mkI Reset [0] []] = false /\ input_ok exEnv2 [mkI (Qpd2 0 None None) [0; 1] []] = false /\
+  input_ok exEnv2 [mkI (Qpd2 1 None None) [1; 1] []] = false.
+Proof. repeat split; vm_compute; reflexivity. Qed.
+
+Print Assumptions c19_input_ok_plain.
+Print Assumptions c19_cut_wires_no_reuse_gen.
+Print Assumptions c19_separated_no_reuse.
+Print Assumptions c19_separated_suffix.
+Print Assumptions c19_separated_no_reset.
 
 (* ------------------------------------------------------------------------------------------------
    facts regenerated from the source on every run *)
